@@ -319,7 +319,12 @@ pub fn exec_step(w: &mut World, ctx: &mut Ctx, st: &Step) -> StepResult {
         }
         "NewKnown" => {
             let n = if a0 % 4 == 0 { *SimRng::new(a0).pick(gen::BOUNDARY_U) } else { a0 % 30 };
-            let env = lib!("Envelope::new(KnownValue)", Envelope::new(KnownValue::new(n)));
+            // a display name given to a known value is no part of its identity
+            let kv = match a0 % 3 {
+                1 => KnownValue::new_with_name(n, format!("name-{}", a0 % 7)),
+                _ => KnownValue::new(n),
+            };
+            let env = lib!("Envelope::new(KnownValue)", Envelope::new(kv));
             push_doc(w, ctx, env, Some(M::known(n)), "NewKnown")
         }
         "NewAssertion" => {
@@ -375,6 +380,19 @@ pub fn exec_step(w: &mut World, ctx: &mut Ctx, st: &Step) -> StepResult {
                 }
             }
             push_doc(w, ctx, env, if ind { Some(m) } else { None }, "AddAssertion")
+        }
+        "AddText" => {
+            // a text object through the convenience form that skips empty strings, and through the general form
+            const TEXTS: [&str; 8] = ["", "x", " ", " padded ", "trailing ", "\tTab", "two  spaces", "caf\u{e9} "];
+            let (d, p) = (doc!(a0), doc!(a1));
+            let text = TEXTS[(a2 % 8) as usize];
+            let (de, pe) = (w.docs[d].env.clone(), w.docs[p].env.clone());
+            let env = lib!("add_nonempty_string_assertion", if a3 % 3 == 0 && !text.is_empty() { de.add_assertion(pe, text) } else { de.add_nonempty_string_assertion(pe, text) });
+            let m = if text.is_empty() { w.docs[d].m.clone() } else { w.docs[d].m.add_assertion_m(&M::assertion(w.docs[p].m.clone(), M::leaf(CV::text(text)))) };
+            let ind = w.docs[d].independent && w.docs[p].independent;
+            ctx.probe("text-object-through-nonempty-form");
+            check_immutable(w, ctx, &[d, p], "add_nonempty_string_assertion");
+            push_doc(w, ctx, env, if ind { Some(m) } else { None }, "AddText")
         }
         "AddBatch" => {
             // several assertions handed over in one call; the model adds them one by one
@@ -976,7 +994,7 @@ pub fn generate(property: &str, r: &mut SimRng, seed: u64) -> Scenario {
     let nsteps = if r.chance(3, 4) { r.range(3, 10) } else { r.range(10, 30) };
     // enabled families
     let weights: Vec<(&str, u64)> = {
-        let mut w: Vec<(&str, u64)> = vec![("NewLeaf", 6), ("NewKnown", 2), ("NewAssertion", 3), ("AddAssertion", 8), ("AddBatch", 1), ("Wrap", 2)];
+        let mut w: Vec<(&str, u64)> = vec![("NewLeaf", 6), ("NewKnown", 2), ("NewAssertion", 3), ("AddAssertion", 8), ("AddBatch", 1), ("AddText", 1), ("Wrap", 2)];
         let on = |r: &mut SimRng, num: u64, den: u64| r.chance(num, den);
         let emphasis = match property {
             "C02" | "C03" => 4,
